@@ -91,9 +91,29 @@ def text_variant(lines, rng, sit, bom=True, blank_p=0.3):
     return lines
 
 
-def align_to_64k(lines, rng, sit):
+def pow2_record(lines, rng, sit, force=None):
+    """adversarial record length: one record that is not the last one is padded to exactly 2**k bytes
+    (without or with its line terminator), k = 12 .. 16 - the sizes of read buffers and of size-limited
+    readline calls"""
+    if len(lines) < 2 or (force is None and rng.random() >= 0.3):
+        return lines
+    lines = list(lines)
+    i = rng.randrange(len(lines) - 1)
+    cr = lines[i].endswith("\r")
+    body = lines[i][:-1] if cr else lines[i]
+    k, less = force if force is not None else (rng.randint(12, 16), rng.choice([0, 1]))
+    target = 2 ** k - less - (1 if cr and rng.random() < 0.5 else 0)
+    need = target - len(lines[i].encode())
+    if need >= 7 and "\tzq:" not in body:
+        lines[i] = body + "\tzq:Z:" + "q" * (need - 6) + ("\r" if cr else "")
+        sit["records_of_power_of_two_length"] += 1
+    return lines
+
+
+def align_to_64k(lines, rng, sit, pow2=None):
     """adversarial layout: pad records so that a (non-final) record ends exactly at an uncompressed
     offset k * 65536 - the chunk size at which BGZF data is inflated"""
+    lines = pow2_record(lines, rng, sit, force=pow2)
     if rng.random() >= 0.5:
         return lines
     lines = list(lines)
@@ -322,7 +342,8 @@ def run_case(ctx, rng, index, casedir):
             all_equal(res, viol, "phased records", sub)
     elif sub == "sort":
         w = SC.build(rng, casedir, index, nrec=nrec, mode="plain", text_variants=False)
-        w.lines = align_to_64k(text_variant(w.lines, rng, sit, blank_p=0.6), rng, sit)
+        j = index // len(SUBS)  # the sort cases walk through the lengths 2**12 .. 2**16 (and one less) in turn
+        w.lines = align_to_64k(text_variant(w.lines, rng, sit, blank_p=0.6), rng, sit, pow2=(12 + j % 5, (j // 5) % 2))
         cfgs = write_configs(casedir, w.lines, lambda p: w.g.write(p, bo_no=w.tags, rng=rng), rng, sit)
         res, idxres = [], []
         out_bgzip = rng.random() < 0.5  # the same output mode for every input configuration of the case
